@@ -117,7 +117,20 @@ func (m *Mast) Delete(ctx context.Context, key, value interface{}) error {
 		return fmt.Errorf("savePathForRoot: %w", err)
 	}
 	m.size--
-	for m.size < m.shrinkBelowSize && m.height > 0 {
+	// Mirror the growth rule (a level is added once size-1 >= branchFactor^height
+	// and a key belongs above): drop levels while the size no longer supports
+	// them, or no key is left in the top node, so that the height depends only
+	// on the contents and not on the history.
+	for m.height > 0 {
+		if m.size > m.shrinkBelowSize {
+			root, err := m.load(ctx, m.root)
+			if err != nil {
+				return fmt.Errorf("load root: %w", err)
+			}
+			if len(root.Key) > 0 {
+				break
+			}
+		}
 		err = m.shrink(ctx)
 		if err != nil {
 			return fmt.Errorf("shrink: %w", err)
